@@ -409,6 +409,7 @@ def classify(case, impl):
     if case["kind"] == "pair":
         a = impl["cn"]
         N, k = a["N"], a["kCN_obs"]
+        tags.append("unstable-stream" if case.get("unstable") else "stable-stream")
         tags.append("trigger=" + ("never" if k >= N else "last-step" if k == N - 1 else "inside"))
         if k < N:
             sig = a["Xsigma"][k]
@@ -480,6 +481,16 @@ def _pair(rng, big=False):
     if rng.random() < 0.5:
         k["s_sigma_rel"] = rng.choice([0, 0.1])
     dt = rng.choice([1, 2, 5, 10])
+    from props.c12 import stable_dt_limit
+
+    lim = stable_dt_limit(k, shape)
+    unstable = False
+    if dt > lim:
+        if rng.random() < 0.25:
+            unstable = True  # small tagged stream outside the stable range of the explicit scheme
+        else:
+            ok = [d for d in [10, 5, 2, 1, 0.5] if d <= lim]
+            dt = ok[0] if ok else 0.5
     rate = rng.choice([0.1, 0.2, 0.5, 1.0])
     start = rng.choice([20, 5, 0])
     stop = rng.choice([-50, -40, -30])
@@ -495,7 +506,7 @@ def _pair(rng, big=False):
     t_trig = (start - cn) / rate + sum(h[1] for h in holds if h[0] >= cn)
     t_tot = rng.choice([ramp + 300 * 1000 / K, t_trig + 20 * dt, t_trig + 200, max(dt, t_trig - 3 * dt), t_trig + dt])
     t_tot = max(dt, min(t_tot, 1500 * dt))
-    return dict(kind="pair", N_vials=shape, k=k, dt=dt, threshold=0.9, seed=rng.randint(0, 10 ** 6),
+    return dict(kind="pair", unstable=unstable, N_vials=shape, k=k, dt=dt, threshold=0.9, seed=rng.randint(0, 10 ** 6),
                 seed_v=rng.randint(0, 10 ** 6), initIce=rng.choice(["indirect", "direct"]),
                 opcond=dict(t_tot=t_tot, start=start, stop=stop, rate=rate, holds=holds or None, cnTemp=cn))
 
